@@ -238,7 +238,7 @@ def to_traces(rec: Recorder, tid0: int = 1, meta: dict | None = None) -> list[di
                     o[f] = rix(e[f])
             if "ids" in e:
                 o["ids"] = [rix(x) for x in e["ids"]]
-            for f in ("pos", "poss", "mode", "dupidx"):
+            for f in ("pos", "poss", "mode", "dupidx", "ty"):
                 if f in e:
                     o[f] = e[f]
             if "first" in e:
@@ -263,7 +263,21 @@ def to_traces(rec: Recorder, tid0: int = 1, meta: dict | None = None) -> list[di
                 # spec's AddAll re-derive both lists (it only needs the order WITHIN each list, which is preserved)
                 pass
             evs.append(o)
-        tr = {"tid": tid0 + n, "R": R, "ev": evs, "classes": [r.name for r in reps]}
+        # species attributes per class (after all classes are known), for the append phases of `naunet extend`
+        S = []
+        k = 0
+        while k < len(reps):        # cls() may append gas counterparts while we iterate
+            sp = reps[k]
+            gas = 0
+            if sp.is_surface:
+                from naunet.species import Species as _Sp
+                try:
+                    gas = cls(rec.byname.get(sp.gasname) or _Sp(sp.gasname))
+                except Exception:   # noqa
+                    gas = 0
+            S.append({"surface": bool(sp.is_surface), "neutral": (not sp.is_surface) and sp.charge == 0, "gas": gas})
+            k += 1
+        tr = {"tid": tid0 + n, "R": R, "S": S, "ev": evs, "classes": [r.name for r in reps]}
         if meta:
             tr.update(meta)
         out.append(tr)
